@@ -4,8 +4,8 @@ legs: MC   TLC checks that every result of the MECHANISM (census pass per column
            currency) descending, per-row conversion with half-even quantisation, NULL for zero) is accepted by the
            DECLARATIVE statement (Accepts) and satisfies the named sub-properties (no currency dropped, per-row
            per-currency sums, nothing invented, plain columns / rows untouched, frequency order) over every table
-           of the input space x formatter off/on.  Non-vacuity: the mechanism AS SHIPPED (a NULL cell in an
-           Inventory column raises) must violate Total; five deliberately broken mechanisms must be rejected.
+           of the input space x formatter off/on.  Non-vacuity: the mechanism as shipped BEFORE fix e9990d2 (a NULL
+           cell in an Inventory column raises) must violate Total; five deliberately broken mechanisms must be rejected.
       S2C  TLC emits every table of a replay space with the set of acceptable output descriptions and, per row
            and currency, the set of acceptable cells.  The driver builds real Amount / Position / Inventory values
            and beanquery.Column descriptions, calls numberify_results(columns, rows, dformat) and compares by
@@ -571,7 +571,7 @@ def rnd_table(rng):
     if not any(t in AMT for t in tys) and rng.random() < 0.9:
         tys[rng.randrange(ncols)] = rng.choice(AMT)
     nrows = rng.choice([0, 1, 2, 3, 3, 4, 5, 6, 8, 12])
-    inv_null_ok = rng.random() < 0.12          # the known defect masks everything else in such a table
+    inv_null_ok = rng.random() < 0.5           # NULL cells in Inventory columns (raised AttributeError before e9990d2)
     pnull = [rng.choice([0, 0, 0.15, 0.5]) for _ in tys]
     dc = DisplayContext()
     skip_cur = rng.choice(pool) if rng.random() < 0.3 else None
@@ -806,8 +806,9 @@ def run(ctx):
             ctx.violation('spec:' + ','.join(res.violated), 'TLC: the mechanism violates the declarative statement',
                           {'behaviour': res.behaviour[:4000]}, 'MC')
         for cfg, inv in NONVACUITY:
-            # MC_Numberify_shipped.cfg is the mechanism as the code has it (None.currencies() raises): TLC exhibits the
-            # counterexample on the specification; the conformance legs below report it on the code under its key
+            # MC_Numberify_shipped.cfg is the mechanism as the code had it before fix e9990d2 (None.currencies() raises):
+            # TLC exhibits the counterexample on the specification; on the code the conformance legs report it under
+            # the key numberify:inventory-null-cell
             ctx.tlc('MC_Numberify', cfg, leg='MC-nonvacuity', expect_violation=inv, workers=2)
         cpu('MC')
     # ---- S2C -----------------------------------------------------------------------------------------
